@@ -201,7 +201,7 @@ fn mutator_calls(spec: &Spec, rng: &mut ChaCha8Rng, out: &mut Out) {
     let mut i64s: Vec<i64> = vec![i64::MIN, i64::MIN + 1, -1, 0, 1, i64::MAX - 1, i64::MAX, 0xffff_ffff, 0x1_0000_0000, -0x1_0000_0000];
     for k in 0..64 { i64s.push(1i64.wrapping_shl(k)); }
     for _ in 0..spec.values { i64s.push(rng.random()); }
-    let memos: Vec<usize> = vec![0, 1, 2, 255, 256, 999, 1000, 65535, 65536, usize::MAX - 1, usize::MAX];
+    let memos: Vec<usize> = vec![0, 1, 2, 255, 256, 998, 999, 1000, 65535, 65536, usize::MAX - 1, usize::MAX];
     let f64s: Vec<f64> = vec![0.0, -0.0, 1.5, f64::NAN, f64::INFINITY, f64::MIN, 1e300];
     let mut strings: Vec<String> = vec!["".into(), "a".into(), "ab".into(), "é".into(), "日本語".into(), "a'b\\c\nd".into(), "x".repeat(64), "\u{10ffff}z".into()];
     let mut bytess: Vec<Vec<u8>> = vec![vec![], vec![0], vec![255], vec![1, 2, 3], vec![0x80; 64], (0..64).collect()];
@@ -210,6 +210,74 @@ fn mutator_calls(spec: &Spec, rng: &mut ChaCha8Rng, out: &mut Out) {
         strings.push((0..n).map(|_| char::from_u32(rng.random_range(32..0x250)).unwrap_or('x')).collect());
         let n = rng.random_range(0..64);
         bytess.push((0..n).map(|_| rng.random()).collect());
+    }
+
+    // draw-directed sources (rate 1.0 only): after the 8 gate bytes, the next draw of width 1/2/4/8
+    // bytes takes a boundary value d (arbitrary reads integers big-endian), so that a draw of
+    // n-1, n, 255, 256, 999, 1000 ... meets the boundary VALUES of the grids below; and after the
+    // gate every byte-valued draw takes the same value b, for every b
+    let mut directed: Vec<(Src, bool)> = Vec::new();
+    let ds: [u64; 16] = [0, 1, 2, 93, 94, 95, 127, 128, 254, 255, 256, 998, 999, 1000, 1001, 65535];
+    for filler in [0usize, 8] {
+        for width in [1usize, 2, 4, 8] {
+            for d in ds {
+                if width == 1 && d > 255 { continue; }
+                let mut b = vec![0u8; filler];
+                b.extend_from_slice(&d.to_be_bytes()[8 - width..]);
+                b.extend_from_slice(&[0u8; 8]);
+                directed.push((Src::Arb(b), false));
+            }
+        }
+    }
+    for b in 0..=255u8 {
+        let mut v = vec![0u8; 8];
+        v.extend_from_slice(&[b; 16]);
+        directed.push((Src::Arb(v), true));
+    }
+    for mid in 1..=7usize {
+        for unsafe_mode in [false, true] {
+            if !(mid == 6 || mid == 7) && unsafe_mode { continue; }
+            let m = mutator_by_id(mid, unsafe_mode);
+            for (src, texts) in &directed {
+                let (sk, sv) = src.json();
+                let base = json!({"t": "mut", "mut": mid, "um": if unsafe_mode {1} else {0}, "rate": 2, "sk": sk, "src": sv});
+                *CURRENT.lock().unwrap() = base.to_string();
+                let mut emit = |meth: &str, inp: Value, res: Result<(Value, usize), String>| {
+                    let mut v = base.clone();
+                    v["meth"] = json!(meth);
+                    v["in"] = inp;
+                    match res {
+                        Ok((o, _)) => { v["out"] = o; v["panic"] = json!(""); }
+                        Err(p) => { v["out"] = json!({"some": 0, "v": []}); v["panic"] = json!(p); }
+                    }
+                    out.put(v);
+                };
+                if *texts {
+                    for x in strings.iter().take(8) {
+                        let r = with_src(src, |g| m.mutate_string(x.clone(), g, 1.0));
+                        let cps = |s: &str| s.chars().map(|c| c as u32).collect::<Vec<u32>>();
+                        emit("string", json!(cps(x)), r.map(|(o, u)| (opt_limbs(o.map(|y| cps(&y))), u)));
+                    }
+                    for x in bytess.iter().take(6) {
+                        let r = with_src(src, |g| m.mutate_bytes(x.clone(), g, 1.0));
+                        emit("bytes", json!(x), r.map(|(o, u)| (opt_limbs(o.map(|y| y.iter().map(|b| *b as u32).collect())), u)));
+                    }
+                } else {
+                    for &x in i32s.iter().take(14) {
+                        let r = with_src(src, |g| m.mutate_int(x, g, 1.0));
+                        emit("int", json!(limbs32(x as u32)), r.map(|(o, u)| (opt_limbs(o.map(|y| limbs32(y as u32))), u)));
+                    }
+                    for &x in i64s.iter().take(10) {
+                        let r = with_src(src, |g| m.mutate_long(x, g, 1.0));
+                        emit("long", json!(limbs64(x as u64)), r.map(|(o, u)| (opt_limbs(o.map(|y| limbs64(y as u64))), u)));
+                    }
+                    for &x in &memos {
+                        let r = with_src(src, |g| m.mutate_memo_index(x, g, 1.0));
+                        emit("memo", json!(limbs64(x as u64)), r.map(|(o, u)| (opt_limbs(o.map(|y| limbs64(y as u64))), u)));
+                    }
+                }
+            }
+        }
     }
 
     for mid in 1..=7usize {
